@@ -12,7 +12,8 @@ fn main() {
         "pca:explained-variance:divisor-is-components-minus-1",
         "pca:explained-variance-ratio:nan-for-one-component",
         "pca:inverse-transform:whitening-not-undone",
-        "pca:solver-breakdown:wrong-components",
+        "pca:solver-breakdown:inconsistent-components",
+        "pca:solver-breakdown:not-leading-eigenpairs",
         "pca:solver-breakdown:nan-panic",
         "pca:solver-breakdown:eigenpairs-misassigned",
     ];
